@@ -1,5 +1,6 @@
 import ShellOp.Util
 import ShellOp.Model.Conversion
+import ShellOp.Model.ConversionOverlap
 /-! Line-protocol suite for C15 (conversion chains). Core-only.
 
 ops
@@ -10,7 +11,8 @@ ops
     declared rules from a to b; nothing returned only if no valid chain exists.
     scope=same (a and b are one version) / multi (two groups qualify one short version): the
     excluded points of `chain_complete` — only the unconditional soundness is demanded.
-* `e2e …` / `oracle e2e …`                     see `e2eStep`
+* `e2e …` / `oracle e2e …`                     see `e2eStep`, `oracleE2E` (one line per request, also when
+    several requests were in flight at the same time: the request's own objects, script, hook runs, answer)
 -/
 namespace ShellOp.Drv.C15
 open ShellOp ShellOp.Util ShellOp.Conversion
@@ -219,9 +221,20 @@ def parseReply (rest : List String) : Option Reply :=
   | some "Failed" => ((kv? "msg" rest).bind parseMsg).map .failed
   | _ => none
 
+/-- `req=<uid> handed=<uid;uid;…>`: the uid of the request, and the uid of the review each hook run
+made for it found in its binding context (`-` = no run) -/
+def parseHanded (rest : List String) : Option (String × List String) :=
+  match kv? "req" rest, kv? "handed" rest with
+  | some req, some h => some (req, if h == "-" then [] else h.splitOn ";")
+  | _, _ => none
+
 def oracleE2E (rest : List String) : String :=
-  match parseE2E rest, (kv? "inv" rest).bind parseInv, parseReply rest with
-  | some e, some inv, some reply =>
+  match parseE2E rest, (kv? "inv" rest).bind parseInv, parseReply rest, parseHanded rest with
+  | some e, some inv, some reply, some (req, handed) =>
+    if handed.length != inv.length then "bad-op" else
+    match Overlap.handedCheck req handed with
+    | some why => "false " ++ why
+    | none =>
     match applyCheck e.rules e.desired e.objs (scriptOf e.group e.desired e.outs) inv reply with
     | some why => "false " ++ why
     | none =>
@@ -229,7 +242,7 @@ def oracleE2E (rest : List String) : String :=
           (scriptOf e.group e.desired e.outs) inv reply with
       | none => "true"
       | some why => "false " ++ why
-  | _, _, _ => "bad-op"
+  | _, _, _, _ => "bad-op"
 
 def step (st : St) (toks : List String) : St × String :=
   match toks with
